@@ -66,7 +66,7 @@ def run(chk: Check):
         return False
 
     # models with variables and distribution nodes (random plans): structure of one build; graphs that must be rejected
-    plans = [B.plan_build_trace(rng, 8) for _ in range(12 if chk.quick else 150)] + [B.rejected_build_events(), B.copy_behaviour_events(), B.moved_dist_events(), B.user_total_nodes_events()]
+    plans = [B.plan_build_trace(rng, 8) for _ in range(12 if chk.quick else 150)] + [B.rejected_build_events(), B.copy_behaviour_events(), B.moved_dist_events(), B.user_total_nodes_events(), B.direct_value_consumer_events()]
     chk.tv("Trace_LieselBuild.tla", plans, tag="plans_with_variables", cfg_extra=TV_CFG,
            keyfn=lambda r: f"build:plans:{r.conjunct}:{r.trace['ev'][r.line - 1].get('what', '')}",
            describe=lambda r: str({k: v for k, v in r.trace["ev"][r.line - 1].items() if k != "all_names"})[:400])
